@@ -633,3 +633,26 @@ def stored_definition_is_nonempty(chk, ctx):
                        message="`definition` = \"{}\" / \"null\" / \"[]\" / \"0\" passes the presence test (made on the text), is parsed to a falsy value and replaces the stored definition: "
                                "CreateStateMachine refuses the same value; StartExecution then answers 200 and the engine drops the start event ('State Machine does not exist')")
     chk.floor("C10.R9", n, 4, "places where a parsed definition is stored")
+
+
+# ---------------------------------------------------------------------------------------------------------------------
+# C20.R13 (D78, open): what the store itself publishes on the invalidation channel is something its own invalidation handler can take. stop()
+# publishes the string "exit" on "__redis__:invalidate" to unblock its listener; that message reaches the handler of EVERY instance, which
+# iterates `message["data"]` as an array of keys and decodes each element.
+def invalidation_handler_takes_what_is_published(chk, ctx):
+    st = ctx.mod("store")
+    h = st.func("RedisStore._cache_invalidation_handler")
+    pubs = []
+    for q, f in sorted(st.funcs.items()):
+        for c in _walk_no_nested(f.node):
+            if isinstance(c, ast.Call) and last(callname(c) or "") == "publish" and len(c.args) >= 2 and const(c.args[0]) == "__redis__:invalidate":
+                pubs.append((q, c))
+    chk.floor("C20.R13", len(pubs), 1, "publishes on the invalidation channel by the store itself")
+    tolerant = any(isinstance(x, ast.Call) and callname(x) == "isinstance" for x in _walk_no_nested(h.node)) or \
+               any(isinstance(t, ast.Try) for t in _walk_no_nested(h.node))
+    for q, c in pubs:
+        scalar = isinstance(c.args[1], ast.Constant) and isinstance(c.args[1].value, (str, bytes))
+        chk.ob("C20.R13", "%s publishes on the invalidation channel something the handler can take" % q, (not scalar) or tolerant, "",
+               key="%s | publishes the string %r on the invalidation channel; the handler iterates the payload as an array of keys and decodes each element" % (q, const(c.args[1])),
+               where=st.line(c), message="the message reaches the invalidation handler of every OTHER instance on the same server: it raises (AttributeError: 'int' has no decode), the "
+                                         "listener thread dies, and from then on that instance's cached views are never invalidated: get_cached_view serves stale definitions for ever")
